@@ -1340,6 +1340,36 @@ def absorbed_param_release(prog, fn, examined=None):
         callers = caller_releases(prog, fn, [q["n"] for q in fn.params].index(pn))
         if callers:
             out.append((b, i, pn, r, "%s->%s = %s" % (r, f, pn), hit[0], hit[1], callers, [f]))
+    # the same through a setter: X_setF(r, p) with r a local object the function releases on its error exits
+    for b, i, n in fn.calls():
+        callee = n.get("fn") or ""
+        if "_set" not in callee or len(n["a"]) < 2:
+            continue
+        a0 = fn.resolve(strip(n["a"][0]))
+        if not (is_var(a0) and strip(a0).get("n") in locals_):
+            continue
+        rhs = fn.resolve(strip(n["a"][1]))
+        while isinstance(rhs, dict) and rhs.get("k") == "cast":
+            rhs = fn.resolve(strip(rhs["e"]))
+        pn = strip(rhs).get("n") if is_var(rhs) else None
+        if pn not in params:
+            continue
+        f = _setter_field(prog, callee)
+        if f is None:
+            continue
+        r = strip(a0)["n"]
+        if examined is not None:
+            examined.append((fn.name, callee, pn, r, [f]))
+        hit = _release_while_absorbed(prog, fn, b, i, sv, r, {f}, [], pn, states=(OKS,))
+        if hit is None or not _releases_field(prog, hit[0], f):
+            continue
+        callers = caller_releases(prog, fn, [q["n"] for q in fn.params].index(pn))
+        if not callers and not fn.static and not prog.callers().get(fn.name):
+            # an entry point of the public interface with no caller inside the library: the convention of the interface applies
+            # (every setter and constructor of the SDK takes its argument over only when it succeeds; the caller frees it otherwise)
+            callers = ["public entry point: the caller keeps %s when the call fails (the interface's convention, stated in its header)" % pn]
+        if callers:
+            out.append((b, i, pn, r, callee, hit[0], hit[1], callers, [f]))
     return out
 
 
@@ -1352,6 +1382,27 @@ def _releases_field(prog, relname, field):
             if is_release(n.get("fn")) and n["a"] and lvalue_key(strip(n["a"][0]), f) == "%s->%s" % (p0, field):
                 return True
     return False
+
+
+def _setter_field(prog, name, j=1):
+    """field f if `name` is a plain setter: it stores its parameter j into <parameter 0>->f (KSI_IMPLEMENT_SETTER and its hand-written kin)."""
+    fns = prog.functions.get(name or "", [])
+    if len(fns) != 1:
+        return None
+    g = fns[0]
+    if len(g.params) <= j or "*" not in g.params[0]["t"]:
+        return None
+    p0, pj = g.params[0]["n"], g.params[j]["n"]
+    found = None
+    for b, i, n in g.nodes():
+        if n.get("k") == "asg" and n.get("op") == "=":
+            l = strip(n["l"])
+            r_ = g.resolve(strip(n["r"]))
+            while isinstance(r_, dict) and r_.get("k") == "cast":
+                r_ = g.resolve(strip(r_["e"]))
+            if l.get("k") == "mem" and l.get("arrow") and is_var(l.get("b"), p0) and is_var(r_, pj):
+                found = l["f"]
+    return found
 
 
 def _release_while_absorbed(prog, fn, b0, i0, sv, r, fields, aliases=(), pname=None, states=(OKS,)):
@@ -1381,6 +1432,10 @@ def _release_while_absorbed(prog, fn, b0, i0, sv, r, fields, aliases=(), pname=N
                             if lk and lk.startswith(al + "->") and lk[len(al) + 2:] in fl:
                                 fl = fl - {lk[len(al) + 2:]}
                 elif kd == "call":
+                    if len(n["a"]) >= 2 and is_var(strip(n["a"][0]), r) and (n.get("fn") or "").find("_set") > 0:
+                        sf = _setter_field(prog, n.get("fn"))
+                        if sf in fl and not (b == b0 and i <= i0):
+                            fl = fl - {sf}          # the field is given another value (X_setF(r, NULL) before the release)
                     for a in n["a"]:
                         a0 = strip(a)
                         if isinstance(a0, dict) and a0.get("k") == "un" and a0["op"] == "&" and is_var(a0["e"], r):
@@ -1408,15 +1463,19 @@ def _release_while_absorbed(prog, fn, b0, i0, sv, r, fields, aliases=(), pname=N
             if not _refine(fn, e, sv, s):
                 continue
             fl2 = fl
+            infeasible = False
             for (op, l, r_) in edge_facts(fn, e):
                 kl, kr = lvalue_key(l, fn), lvalue_key(r_, fn)
+                # r holds the parameter, so it is an object: the `r == NULL` arm of a guard is not a path
+                if op == "==" and ((kl == r and (is_null(r_) or is_int(r_, 0))) or (kr == r and (is_null(l) or is_int(l, 0)))):
+                    infeasible = True
                 for al in list(aliases) + [r]:
                     for f in fl:
                         if op == "!=" and {kl, kr} == {"%s->%s" % (al, f), pname}:
                             fl2 = fl2 - {f}         # the field does not hold the parameter on this edge
                 if op == "==" and ((kl in aliases and (is_null(r_) or is_int(r_, 0))) or (kr in aliases and (is_null(l) or is_int(l, 0)))):
                     fl2 = frozenset()               # back-pointer NULL: the parameter is not linked into r on this edge
-            if not fl2:
+            if not fl2 or infeasible:
                 continue
             st = (e.dst, 0, s, fl2)
             if st not in seen:
